@@ -435,8 +435,11 @@ func init() {
 
 	// ---- the scheduler under the virtual clock: histories of AddJob/RemoveJob/Enable/Disable/tick ----
 	// the virtual clock starts at 00:00:30; the job specs are chosen relative to it
-	jobSpecs := map[string]string{"first": "1 0 * * *", "second": "2 0 * * *", "every": "* * * * *", "never": "0 5 1 1 *"}
-	for _, pair := range [][2]string{{"first", "every"}, {"second", "never"}, {"every", "every"}} {
+	// (zoned-*: the job lives in a zone 3 h 30 min ahead of the node's: 00:01 on the node's clock is 03:31 there)
+	jobSpecs := map[string]string{"first": "1 0 * * *", "second": "2 0 * * *", "every": "* * * * *", "never": "0 5 1 1 *", "zoned-first": "31 3 * * *", "zoned-not-first": "1 0 * * *"}
+	ahead := rt.FixedZone("+0330", 3*3600+1800)
+	jobLoc := map[string]*rt.Location{"zoned-first": ahead, "zoned-not-first": ahead}
+	for _, pair := range [][2]string{{"first", "every"}, {"second", "never"}, {"every", "every"}, {"zoned-first", "zoned-not-first"}} {
 		pair := pair
 		alphabet := []string{"add.A", "add.B", "remove.A", "enable.A", "disable.A", "enable.B", "disable.B", "tick"}
 		spec := harn.OpSeqSpec{Alphabet: alphabet, DepthQuick: 5, DepthThorough: 7, NoDedupQuick: 3, NoDedupThorough: 4}
@@ -446,6 +449,12 @@ func init() {
 				cr := w.n.Cron()
 				var fired []string
 				specOf := map[string]string{"A": jobSpecs[pair[0]], "B": jobSpecs[pair[1]]}
+				locOf := map[string]*rt.Location{"A": rt.UTC, "B": rt.UTC}
+				for i, jn := range []string{"A", "B"} {
+					if l := jobLoc[pair[i]]; l != nil {
+						locOf[jn] = l
+					}
+				}
 				present := map[string]bool{}
 				enabled := map[string]bool{}
 				var expect []string
@@ -458,7 +467,7 @@ func init() {
 					var err error
 					switch what {
 					case "add":
-						err = cr.AddJob(gen.CronJob{Name: gen.Atom(j), Spec: specOf[j], Location: rt.UTC, Action: actionRec{&fired}})
+						err = cr.AddJob(gen.CronJob{Name: gen.Atom(j), Spec: specOf[j], Location: locOf[j], Action: actionRec{&fired}})
 						if present[j] != (err != nil) {
 							fail("cron-api-result", "after %v: AddJob returned %v (job present=%v)", here, err, present[j])
 							return
@@ -495,7 +504,7 @@ func init() {
 						w.ex.Run() // not a set-up phase: timers up to the horizon fire
 						for _, jn := range []string{"A", "B"} {
 							ref, _ := refParse(specOf[jn])
-							if present[jn] && enabled[jn] && ref.match(minute) {
+							if present[jn] && enabled[jn] && ref.match(minute.In(locOf[jn])) {
 								expect = append(expect, fmt.Sprintf("'%s'@%s", jn, minute.Format("15:04")))
 							}
 						}
